@@ -201,13 +201,32 @@ def run(tier):
                 ck.finding("R3.correctly-rounded-reader", "R3.number-provenance/%s" % f.parent, F.short_span(s[3]),
                            "`%s` builds a Number whose value comes neither from str::parse::<f64> nor from a single integer->float cast" % f.parent)
 
+    # R1b: anywhere else (constant folding in the compiler, natives) an integer shift / bitwise operation on a value that was cast
+    # straight from an f64 is the same mistake in another place: the 32-bit wrap-around of the operator is lost (or done in 64 bits)
+    ck.rule("R1b.no-cast-then-bitwise", "no integer shift / bitwise operation on a value cast directly from an f64 (operands come from ToInt32 / ToUint32)", floor=0)
+    from numfmt import cast_then_bitwise
+    for g, st in cast_then_bitwise(fx, lambda g: g.file.startswith(("src/compiler", "src/interpreter", "src/value.rs"))):
+        ck.instance("R1b.no-cast-then-bitwise", "%s: %s on %s" % (g.path, st[2][1], fx.tys(st[2][4])), F.short_span(st[3]), ok=False)
+        ck.finding("R1b.no-cast-then-bitwise", "R1b.no-cast-then-bitwise/%s/%s" % (g.parent if g.closure else g.path, st[2][1].replace("WithOverflow", "")), F.short_span(st[3]),
+                   "`%s` applies `%s` to an integer it cast from an f64 itself: the operator's 32-bit semantics (ToInt32 / ToUint32, modulo 2^32) are "
+                   "bypassed - a compile-time fold of `1 << 31` in 64 bits gives 2147483648 where the VM gives -2147483648" % (g.path, st[2][1]))
+    for g in fx.fns.values():
+        if not g.derived and g.file.startswith(("src/compiler", "src/interpreter", "src/value.rs")):
+            ck.instance("R1b.no-cast-then-bitwise", g.path, None, nontrivial=False)
+    if not cast_then_bitwise(F.load_fixture(), lambda g: g.path.startswith("c15::fold")):
+        ck.closed_fail.append("R1b control failed: the 64-bit shift fold of the fixture was not reported")
+
     # R4-R6 number printing
     import numfmt
     numfmt.rules(fx, ck, lambda g: g.file.endswith(("src/value.rs", "builtins/number.rs")))
+    numfmt.cast_rule(fx, ck, lambda g: g.file.endswith(("src/value.rs", "builtins/number.rs")))
     ckc = Check("C15", tier, "", [])
     numfmt.rules(F.load_fixture(), ckc, lambda g: g.path.startswith("c15::print"), printer_root="c15::print::number_to_string", pre="ctl:")
+    numfmt.cast_rule(F.load_fixture(), ckc, lambda g: g.path.startswith("c15::print"), printer_root="c15::print::number_to_string", pre="ctl:")
     gotc = {fd[0] for fd in ckc.findings}
-    if not {"R4.digits-from-the-number", "R5.one-printer", "R6.tie-rounding"} <= gotc:
+    if any("guarded_int" in fd[1] for fd in ckc.findings):
+        ck.closed_fail.append("R4b control failed: the range-guarded cast of the fixture was reported")
+    if not {"R4.digits-from-the-number", "R5.one-printer", "R6.tie-rounding", "R4b.no-saturating-cast"} <= gotc:
         ck.closed_fail.append("R4-R6 control failed: fixture printers reported by %s" % sorted(gotc))
 
     # positive control
